@@ -173,3 +173,193 @@ func TplStrings(n parse.Node) []string {
 	})
 	return out
 }
+
+// ---- scope-resolved references ------------------------------------------------
+
+// TplRef is a reference to data in a template, resolved to an absolute path
+// from the root dot: ".Errors[].Errors[].Name". Unresolvable bases are "?".
+type TplRef struct {
+	Path string
+	Node parse.Node
+	// InRanges lists the collections (absolute paths) being ranged over at the
+	// point of the reference, outermost first.
+	InRanges []string
+	// ConstIndex is set when the reference is `index Path k` with constant k.
+	ConstIndex bool
+	Index      string
+	Conds      []string // enclosing if/with conditions (source text), outermost first
+}
+
+type tplScope struct {
+	dot    string
+	vars   map[string]string
+	ranges []string
+	conds  []string
+}
+
+func (s tplScope) clone() tplScope {
+	n := tplScope{dot: s.dot, vars: map[string]string{}, ranges: append([]string(nil), s.ranges...), conds: append([]string(nil), s.conds...)}
+	for k, v := range s.vars {
+		n.vars[k] = v
+	}
+	return n
+}
+
+func (s tplScope) resolve(n parse.Node) (string, bool) {
+	switch x := n.(type) {
+	case *parse.DotNode:
+		return s.dot, true
+	case *parse.FieldNode:
+		return s.dot + "." + strings.Join(x.Ident, "."), true
+	case *parse.VariableNode:
+		base, ok := s.vars[x.Ident[0]]
+		if !ok {
+			return "?" + x.Ident[0], false
+		}
+		if len(x.Ident) > 1 {
+			return base + "." + strings.Join(x.Ident[1:], "."), true
+		}
+		return base, true
+	case *parse.ChainNode:
+		base, ok := s.resolve(x.Node)
+		return base + "." + strings.Join(x.Field, "."), ok
+	case *parse.PipeNode:
+		if len(x.Cmds) == 1 {
+			return s.resolve(x.Cmds[0])
+		}
+	case *parse.CommandNode:
+		if len(x.Args) == 1 {
+			return s.resolve(x.Args[0])
+		}
+		// (index X k)
+		if id, ok := x.Args[0].(*parse.IdentifierNode); ok && id.Ident == "index" && len(x.Args) == 3 {
+			base, ok := s.resolve(x.Args[1])
+			return base + "[" + x.Args[2].String() + "]", ok
+		}
+	}
+	return "?", false
+}
+
+// TplRefs resolves every field/variable reference and every `index X k` call
+// of the template to absolute paths, tracking range/with scopes.
+func TplRefs(t *Tpl) []TplRef {
+	var out []TplRef
+	var walk func(n parse.Node, s tplScope)
+	addRefs := func(n parse.Node, s tplScope) {
+		WalkTpl(n, func(x parse.Node) bool {
+			switch y := x.(type) {
+			case *parse.FieldNode, *parse.VariableNode, *parse.ChainNode:
+				if p, _ := s.resolve(y); p != "" {
+					out = append(out, TplRef{Path: p, Node: y, InRanges: s.ranges, Conds: s.conds})
+				}
+				if _, isChain := y.(*parse.ChainNode); isChain {
+					return true
+				}
+			case *parse.CommandNode:
+				if len(y.Args) == 3 {
+					if id, ok := y.Args[0].(*parse.IdentifierNode); ok && id.Ident == "index" {
+						if _, isNum := y.Args[2].(*parse.NumberNode); isNum {
+							base, _ := s.resolve(y.Args[1])
+							out = append(out, TplRef{Path: base, Node: y, InRanges: s.ranges, ConstIndex: true, Index: y.Args[2].String(), Conds: s.conds})
+						}
+					}
+				}
+			}
+			return true
+		})
+	}
+	declare := func(p *parse.PipeNode, s *tplScope, elem string, isRange bool) {
+		if p == nil {
+			return
+		}
+		switch len(p.Decl) {
+		case 1:
+			s.vars[p.Decl[0].Ident[0]] = elem
+		case 2:
+			s.vars[p.Decl[0].Ident[0]] = "?idx"
+			s.vars[p.Decl[1].Ident[0]] = elem
+		}
+		_ = isRange
+	}
+	walk = func(n parse.Node, s tplScope) {
+		switch x := n.(type) {
+		case nil:
+		case *parse.ListNode:
+			if x == nil {
+				return
+			}
+			cur := s
+			for _, c := range x.Nodes {
+				// variable declarations in actions extend the current scope
+				if a, ok := c.(*parse.ActionNode); ok && len(a.Pipe.Decl) > 0 {
+					addRefs(a.Pipe, cur)
+					val, _ := cur.resolve(a.Pipe)
+					cur = cur.clone()
+					declare(a.Pipe, &cur, val, false)
+					continue
+				}
+				walk(c, cur)
+			}
+		case *parse.ActionNode:
+			addRefs(x.Pipe, s)
+		case *parse.IfNode:
+			addRefs(x.Pipe, s)
+			in := s.clone()
+			in.conds = append(in.conds, x.Pipe.String())
+			walk(x.List, in)
+			if x.ElseList != nil {
+				el := s.clone()
+				el.conds = append(el.conds, "not("+x.Pipe.String()+")")
+				walk(x.ElseList, el)
+			}
+		case *parse.WithNode:
+			addRefs(x.Pipe, s)
+			in := s.clone()
+			val, _ := s.resolve(x.Pipe)
+			in.dot = val
+			in.conds = append(in.conds, x.Pipe.String())
+			declare(x.Pipe, &in, val, false)
+			walk(x.List, in)
+			if x.ElseList != nil {
+				walk(x.ElseList, s)
+			}
+		case *parse.RangeNode:
+			addRefs(x.Pipe, s)
+			coll, _ := s.resolve(x.Pipe)
+			in := s.clone()
+			in.dot = coll + "[]"
+			in.ranges = append(in.ranges, coll)
+			declare(x.Pipe, &in, coll+"[]", true)
+			walk(x.List, in)
+			if x.ElseList != nil {
+				walk(x.ElseList, s)
+			}
+		case *parse.TemplateNode:
+			if x.Pipe != nil {
+				addRefs(x.Pipe, s)
+			}
+		}
+	}
+	root := tplScope{dot: "", vars: map[string]string{"$": ""}}
+	walk(t.Tree.Root, root)
+	return out
+}
+
+// RangeConstIndexHits returns the references that index, with a constant, a
+// collection that is being ranged over at that point: inside `range C` the
+// element is the dot; `index C 0` there almost always means every element is
+// treated like the first one.
+func RangeConstIndexHits(t *Tpl) []TplRef {
+	var out []TplRef
+	for _, r := range TplRefs(t) {
+		if !r.ConstIndex {
+			continue
+		}
+		for _, rg := range r.InRanges {
+			if rg == r.Path {
+				out = append(out, r)
+			}
+		}
+	}
+	return out
+}
